@@ -52,6 +52,9 @@ type c01Eng struct {
 	memo map[sumKey]*Summary
 	busy map[sumKey]bool
 	fwd  map[sumKey]int // forwarded parameter index; -1: none; -2: being computed
+	// hash→digest tables (functions), see algTable
+	tables     map[*ssa.Function]*c01AlgTable
+	tablesBusy map[*ssa.Function]bool
 }
 
 var c01Engines = map[*World]*c01Eng{}
@@ -60,7 +63,8 @@ func c01Engine(w *World) *c01Eng {
 	if e, ok := c01Engines[w]; ok {
 		return e
 	}
-	e := &c01Eng{w: w, memo: map[sumKey]*Summary{}, busy: map[sumKey]bool{}, fwd: map[sumKey]int{}}
+	e := &c01Eng{w: w, memo: map[sumKey]*Summary{}, busy: map[sumKey]bool{}, fwd: map[sumKey]int{},
+		tables: map[*ssa.Function]*c01AlgTable{}, tablesBusy: map[*ssa.Function]bool{}}
 	c01Engines[w] = e
 	return e
 }
@@ -1001,4 +1005,449 @@ func (m *c01Meta) loop(fn *ssa.Function, mode Mode, fr c01Frame, anns []string, 
 	}
 	c.OK(pre+"/metadata-loop", rule, w.InstrPos(loop.Next))
 	return true
+}
+
+// ---- the digest algorithm of the signature's hash -------------------------------------
+//
+// Clause: the blob is digested with the algorithm that the hash→digest table gives for the hash of the signature
+// algorithm of the verified envelope, and a hash the table does not know fails closed. In the base tree the table is a
+// package-level map[crypto.Hash]digest.Algorithm indexed in VerifyBlob with the comma-ok form. The clause does not
+// depend on that representation: a *function* of the module can be the table (a switch or an if chain over the hash,
+// a wrapper around the map lookup), its answer can be a boolean, an error or the zero value, and it can be handed the
+// hash, the signature algorithm or an object that contains it. c01AlgTable recognises such a function by what it
+// computes, not by where it stands:
+//
+//	g is a table keyed by X (an expression over g's parameters) when every return of g that can deliver the passing
+//	answer (verdict result not the constant false / not a provably non-nil error / algorithm not the constant "")
+//	delivers as its algorithm
+//	  (i)   a constant c != "" on a path that must pass the edge X == n, (n, c) being a pair of the canonical table
+//	        crypto.SHA256→"sha256", crypto.SHA384→"sha384", crypto.SHA512→"sha512"  (decided per phi edge when the
+//	        function has a single exit fed by locals), or
+//	  (ii)  M[X], M a package-level map[crypto.Hash]digest.Algorithm of the module, the verdict being the ok of that very
+//	        lookup or the path passing ok(M[X]) / M[X] != ""  (no verdict is needed when the zero value is the answer), or
+//	  (iii) the algorithm of a call of another such table h(…), the verdict being h's own verdict of that call (or the
+//	        path passing it), keyed by h's key with h's parameters replaced by the arguments,
+//	and all these returns agree on X.
+//
+// Soundness. X is built from SSA parameters (immutable) and calls on them, and it is only ever accepted when, with
+// g's parameters replaced by the arguments of the call, it reads Hash(SignatureAlgorithm of the verified envelope) in
+// the entry point's frame — so X is the hash the clause speaks of. By (i)–(iii) "g(args) gave its passing answer"
+// implies "the algorithm it returned is table(X) and X is in the table": exactly what `alg, ok := M[X]; ok` says. The
+// entry point must still pass that answer on every non-skip success exit (the obligation blob/algorithm-lookup, now
+// stated on T(g(args)#ok) / g(args)#err == nil / g(args) != "") and hand that very result to the generator (blob/generator
+// and the three comparisons are stated on the value g(args)#alg). A function with a passing return that is not covered
+// (a default arm answering SHA256, a constant not paired with its hash, a lookup whose miss is not reported) is not a
+// table and the obligations fail as before. For the map itself `M[H] != ""` is accepted next to ok(M[H]): a miss yields
+// the zero value, so the inequality implies the hit (an entry mapped to "" is treated as a miss: stricter).
+
+var c01HashDigest = map[string]string{"5": `"sha256"`, "6": `"sha384"`, "7": `"sha512"`} // crypto.SHA256/384/512 → digest.SHA256/384/512
+
+const (
+	c01AnsBool = iota
+	c01AnsErr
+	c01AnsZero
+)
+
+type c01AlgTable struct {
+	g   *ssa.Function
+	k   int    // result index of the digest algorithm
+	j   int    // result index of the verdict; -1: the algorithm itself ("" is the miss)
+	ans int    // kind of the verdict
+	key string // what the table is keyed by, in g's frame
+}
+
+func isDigestAlgorithm(t types.Type) bool {
+	return t != nil && strings.HasSuffix(t.String(), "opencontainers/go-digest.Algorithm")
+}
+
+// hashDigestMapLookup: v is M[idx] (either form) on a package-level hash→digest map of the module.
+func (e *c01Eng) hashDigestMapLookup(v ssa.Value) *ssa.Lookup {
+	if x, ok := v.(*ssa.Extract); ok && x.Index == 0 {
+		v = x.Tuple
+	}
+	l, ok := v.(*ssa.Lookup)
+	if !ok {
+		return nil
+	}
+	u, ok := l.X.(*ssa.UnOp)
+	if !ok || u.Op != token.MUL {
+		return nil
+	}
+	g, ok := u.X.(*ssa.Global)
+	if !ok || g.Pkg == nil || !e.w.IsProductPkg(g.Pkg.Pkg.Path()) || !isHashDigestMap(g.Type().(*types.Pointer).Elem()) {
+		return nil
+	}
+	return l
+}
+
+// blockGuards: the facts every path from the entry to block b passes.
+func c01BlockGuards(fi *FnInfo, b *ssa.BasicBlock) map[string]string {
+	if b.Index == 0 {
+		return map[string]string{}
+	}
+	l, ok := fi.mustPassBetween([]int{0}, map[int]bool{b.Index: true})
+	if !ok {
+		return nil // unreachable
+	}
+	return l
+}
+
+// algTable decides whether g is a hash→digest table (see above); nil if not.
+func (e *c01Eng) algTable(g *ssa.Function) *c01AlgTable {
+	if t, ok := e.tables[g]; ok {
+		return t
+	}
+	if g == nil || g.Blocks == nil || !e.w.IsProductFn(g) || g.Recover != nil || e.tablesBusy[g] {
+		return nil
+	}
+	e.tablesBusy[g] = true
+	defer delete(e.tablesBusy, g)
+	t := e.algTable1(g)
+	e.tables[g] = t
+	return t
+}
+
+func (e *c01Eng) algTable1(g *ssa.Function) *c01AlgTable {
+	res := g.Signature.Results()
+	t := &c01AlgTable{g: g, k: -1, j: -1, ans: c01AnsZero}
+	for i := 0; i < res.Len(); i++ {
+		if isDigestAlgorithm(res.At(i).Type()) {
+			if t.k >= 0 {
+				return nil
+			}
+			t.k = i
+		}
+	}
+	if t.k < 0 {
+		return nil
+	}
+	if res.Len() > 1 {
+		t.j = res.Len() - 1
+		switch {
+		case t.j == t.k:
+			return nil
+		case isErrorType(res.At(t.j).Type()):
+			t.ans = c01AnsErr
+		case isBoolType(res.At(t.j).Type()):
+			t.ans = c01AnsBool
+		default:
+			return nil
+		}
+	}
+	fi := e.w.Info(g)
+	var keys map[string]bool
+	n := 0
+	for _, b := range g.Blocks {
+		r, ok := blockTerm(b).(*ssa.Return)
+		if !ok || len(r.Results) != res.Len() {
+			continue
+		}
+		alg := r.Results[t.k]
+		var verdict ssa.Value
+		if t.j >= 0 {
+			verdict = r.Results[t.j]
+		}
+		// one case per return, or one per incoming edge when the results are phis of the returning block
+		type rcase struct {
+			alg, verdict ssa.Value
+			at           *ssa.BasicBlock
+			guards       map[string]string
+		}
+		var cases []rcase
+		pa, aPhi := alg.(*ssa.Phi)
+		pv, vPhi := verdict.(*ssa.Phi)
+		aPhi = aPhi && pa.Block() == b
+		vPhi = vPhi && pv.Block() == b
+		if aPhi || vPhi {
+			for pi, pred := range b.Preds {
+				c := rcase{alg: alg, verdict: verdict, at: pred}
+				if aPhi {
+					c.alg = pa.Edges[pi]
+				}
+				if vPhi {
+					c.verdict = pv.Edges[pi]
+				}
+				gs := c01BlockGuards(fi, pred)
+				if gs == nil {
+					continue // unreachable predecessor
+				}
+				c.guards = map[string]string{}
+				for l, s := range gs {
+					c.guards[l] = s
+				}
+				if iff, isIf := blockTerm(pred).(*ssa.If); isIf && len(pred.Succs) == 2 && pred.Succs[0] != pred.Succs[1] {
+					l := condLabel(iff.Cond, pred.Succs[0] == b)
+					c.guards[l] = ""
+					if tw, ok := labelTwin(l); ok {
+						c.guards[tw] = ""
+					}
+				}
+				cases = append(cases, c)
+			}
+		} else {
+			gs := c01BlockGuards(fi, b)
+			if gs == nil {
+				continue
+			}
+			cases = append(cases, rcase{alg, verdict, b, gs})
+		}
+		for _, c := range cases {
+			// exits that cannot deliver the passing answer
+			switch t.ans {
+			case c01AnsBool:
+				if v, isK := boolConst(c.verdict); isK && !v {
+					continue
+				}
+			case c01AnsErr:
+				if fi.nonNil(c.verdict, c.at) {
+					continue
+				}
+			case c01AnsZero:
+				if k, isK := c.alg.(*ssa.Const); isK && constString(k) == `""` {
+					continue
+				}
+			}
+			ks := e.algKeys(t, c.alg, c.verdict, c.guards)
+			if n > 0 {
+				for k := range keys {
+					if !ks[k] {
+						delete(keys, k)
+					}
+				}
+			} else {
+				keys = ks
+			}
+			n++
+			if len(keys) == 0 {
+				return nil
+			}
+		}
+	}
+	if n == 0 || len(keys) == 0 {
+		return nil
+	}
+	t.key = sortedKeys(keys)[0]
+	return t
+}
+
+// c01TruthLabels: the spellings of "the boolean x is true" as an edge label (`if x`, `if x == true`, `if x != false`).
+func c01TruthLabels(x string) []string {
+	return []string{"T(" + x + ")", "EQ(" + x + ",const:true)", "NE(" + x + ",const:false)"}
+}
+
+// passLabels: the labels under which "the call gave its passing answer" is recorded, for a call whose results print as
+// algForm / verdictForm.
+func c01PassLabels(ans int, algForm, verdictForm string) []string {
+	switch ans {
+	case c01AnsBool:
+		return c01TruthLabels(verdictForm)
+	case c01AnsErr:
+		return []string{"EQ(" + verdictForm + ",nil)"}
+	}
+	return []string{"NE(" + algForm + `,const:"")`}
+}
+
+// algKeys: the expressions X (g's frame) such that this passing-capable return delivers table(X), X in the table.
+func (e *c01Eng) algKeys(t *c01AlgTable, alg, verdict ssa.Value, guards map[string]string) map[string]bool {
+	out := map[string]bool{}
+	// (i) a constant of the canonical table behind the equality of its hash
+	if k, ok := alg.(*ssa.Const); ok {
+		c := constString(k)
+		if c == `""` {
+			return out
+		}
+		for l := range guards {
+			op, args := splitTopArgs(l)
+			if op == "EQ" && len(args) == 2 && strings.HasPrefix(args[1], "const:") && c01HashDigest[strings.TrimPrefix(args[1], "const:")] == c {
+				out[args[0]] = true
+			}
+		}
+		return out
+	}
+	// (ii) the module's map, looked up with a reported miss
+	if l := e.hashDigestMapLookup(alg); l != nil {
+		ld := desc(l)
+		hit := t.ans == c01AnsZero
+		if x, ok := verdict.(*ssa.Extract); ok && t.ans == c01AnsBool && x.Tuple == ssa.Value(l) && x.Index == 1 && l.CommaOk {
+			hit = true
+		}
+		for _, pl := range append(c01TruthLabels("ok("+ld+")"), "NE("+ld+`,const:"")`) {
+			if _, ok := guards[pl]; ok {
+				hit = true
+			}
+		}
+		if hit {
+			out[desc(l.Index)] = true
+		}
+		return out
+	}
+	// (iii) the answer of another table
+	call := callOf(alg)
+	if call == nil || call.Call.IsInvoke() {
+		return out
+	}
+	h := staticCallee(call)
+	ht := e.algTable(h)
+	if ht == nil || len(call.Call.Args) != len(h.Params) {
+		return out
+	}
+	if idx := 0; true {
+		if x, ok := alg.(*ssa.Extract); ok {
+			idx = x.Index
+		}
+		if idx != ht.k {
+			return out
+		}
+	}
+	hit := t.ans == c01AnsZero && ht.ans == c01AnsZero
+	if x, ok := verdict.(*ssa.Extract); ok && ht.j >= 0 && t.ans == ht.ans && x.Tuple == ssa.Value(call) && x.Index == ht.j {
+		hit = true
+	}
+	if ht.j >= 0 || ht.ans == c01AnsZero {
+		vf := ""
+		if ht.j >= 0 {
+			vf = res(call, ht.j)
+		}
+		for _, l := range c01PassLabels(ht.ans, res(call, ht.k), vf) {
+			if _, ok := guards[l]; ok {
+				hit = true
+			}
+		}
+	}
+	if hit {
+		var names, descs []string
+		for i, p := range h.Params {
+			names = append(names, p.Name())
+			descs = append(descs, desc(call.Call.Args[i]))
+		}
+		out[substParams(ht.key, names, descs)] = true
+	}
+	return out
+}
+
+// c01Deriv: one accepted way in which the entry point obtains the digest algorithm — the printed form of the value
+// (a regular expression) and the fact that says the table knew the hash.
+type c01Deriv struct {
+	value, pass string
+	what        string
+}
+
+// c01CallArgs parses the balanced argument list that starts at s[0] == '(' ; it returns the top-level arguments and
+// the length consumed (0 if unbalanced).
+func c01CallArgs(s string) ([]string, int) {
+	if len(s) == 0 || s[0] != '(' {
+		return nil, 0
+	}
+	depth, inQ := 0, false
+	for k := 0; k < len(s); k++ {
+		ch := s[k]
+		if inQ {
+			if ch == '\\' {
+				k++
+			} else if ch == '"' {
+				inQ = false
+			}
+			continue
+		}
+		switch ch {
+		case '"':
+			inQ = true
+		case '(', '[', '{':
+			depth++
+		case ')', ']', '}':
+			depth--
+			if depth == 0 {
+				_, args := splitTopArgs("X" + s[:k+1])
+				if len(args) == 1 && args[0] == "" {
+					args = nil
+				}
+				return args, k + 1
+			}
+		}
+	}
+	return nil, 0
+}
+
+// c01Derivations: the calls of table functions that occur in the facts of the non-skip success exits (already in the
+// entry point's frame) and whose key, with the parameters replaced by the arguments, is the hash of the signature
+// algorithm of the verified envelope (reHash).
+func (e *c01Eng) derivations(fn *ssa.Function, sum *Summary, reHash *regexp.Regexp) []c01Deriv {
+	var out []c01Deriv
+	seen := map[string]bool{}
+	for _, g := range e.w.moduleCallees(fn) {
+		if g == fn {
+			continue
+		}
+		sig := g.Signature.Results()
+		has := false
+		for i := 0; i < sig.Len(); i++ {
+			has = has || isDigestAlgorithm(sig.At(i).Type())
+		}
+		if !has {
+			continue
+		}
+		t := e.algTable(g)
+		if t == nil {
+			continue
+		}
+		head := "call:" + fnName(g)
+		for _, ex := range sum.Exits {
+			for _, l := range labelList(ex.Checked) {
+				for at := 0; ; {
+					i := strings.Index(l[at:], head+"(")
+					if i < 0 {
+						break
+					}
+					at += i + len(head)
+					args, n := c01CallArgs(l[at:])
+					if n == 0 || len(args) != len(g.Params) {
+						continue
+					}
+					var names []string
+					for _, p := range g.Params {
+						names = append(names, p.Name())
+					}
+					if !reHash.MatchString(substParams(t.key, names, args)) {
+						continue
+					}
+					algForm := callForm(g, t.k, args...)
+					vf := ""
+					if t.j >= 0 {
+						vf = callForm(g, t.j, args...)
+					}
+					var ps []string
+					for _, p := range c01PassLabels(t.ans, algForm, vf) {
+						ps = append(ps, regexp.QuoteMeta(p))
+					}
+					d := c01Deriv{value: regexp.QuoteMeta(algForm), pass: strings.Join(ps, "|"),
+						what: "digest algorithm = " + fnName(g) + "(…), a hash→digest table keyed by the hash of the signature algorithm of the verified envelope, its miss answer fail-closed"}
+					if !seen[d.value+"\x00"+d.pass] {
+						seen[d.value+"\x00"+d.pass] = true
+						out = append(out, d)
+					}
+				}
+			}
+		}
+	}
+	return out
+}
+
+// c01HashDigestMaps: a regular expression for the printed names of the module's package-level
+// map[crypto.Hash]digest.Algorithm variables (the table may live in any package of the module; its content is C07's).
+func c01HashDigestMaps(w *World) string {
+	var names []string
+	for _, p := range w.Product {
+		for _, m := range p.Members {
+			if g, ok := m.(*ssa.Global); ok {
+				if pt, ok := g.Type().(*types.Pointer); ok && isHashDigestMap(pt.Elem()) {
+					names = append(names, regexp.QuoteMeta(strings.TrimPrefix(desc(g), "global:")))
+				}
+			}
+		}
+	}
+	if len(names) == 0 {
+		return `\?` // no table: nothing matches
+	}
+	sort.Strings(names)
+	return "(?:" + strings.Join(names, "|") + ")"
 }
